@@ -172,6 +172,11 @@ func CheckAgainst(s Store, m *refmodel.LogModel, extra []uint64) (sig, msg strin
 // CheckGet compares one GetLog with the model.
 func CheckGet(s Store, m *refmodel.LogModel, i uint64) (sig, msg string) {
 	var got raft.Log
+	if _, isWAL := s.(*wal.WAL); isWAL && i%2 == 1 {
+		// every other read goes into a raft.Log that still holds another entry's fields (callers
+		// re-use one variable in a loop): a successful GetLog must overwrite all of them
+		got = raft.Log{Index: ^uint64(0), Term: 77, Type: 9, Data: []byte("stale data"), Extensions: []byte("stale ext"), AppendedAt: time.Unix(5, 5)}
+	}
 	err := s.GetLog(i, &got)
 	want, ok := m.Get(i)
 	if ok {
